@@ -22,6 +22,22 @@ TEXTS = {
              "step fewer than send_batch_size items are buffered (timer) or none (no timer). The deadline half is a virtual-time statement; "
              "wall-clock latency is evidence only. Tied by replaying recorded shard inputs (with real timers) through the model.",
         design_ref="DESIGN.md 6/C09", note=_BP_NOTE + " Partial: scheduler/timer latency is outside the model.", technique="Coq proof (invariant over event sequences) + trace validation"),
+    "C06": dict(
+        text="Theorems: per-waiter apportioning is exact over every shard history (told-about + pending = submitted; everything after the final flush); "
+             "the caller's loop returns exactly when responses adding up to its items have arrived, in any order, with an error wrapping precisely the "
+             "failing exports (nil iff all succeeded); a context end is honoured at the next step. Tied by replaying real shard inputs and the real "
+             "response sequences of each call through the model.",
+        design_ref="DESIGN.md 6/C06", note=_BP_NOTE + " errors.Is/Join semantics trusted.", technique="Coq proof (induction over histories and response lists) + trace validation"),
+    "C10": dict(
+        text="Theorems: same shard iff equal value lists on every configured key; the metadata an export sees agrees with every request of its shard; for "
+             "every interleaving of lock-free lookups and locked admissions at most `limit` combinations are admitted and refusals happen only at the limit. "
+             "Tied by evaluating the model on the shard assignment, export metadata and admissions observed in concurrent runs.",
+        design_ref="DESIGN.md 6/C10", note=_BP_NOTE, technique="Coq proof (invariant over interleavings) + trace validation"),
+    "C11": dict(
+        text="Theorems over every interleaving of the protocol LTS (shard loops, semaphore, WaitGroup, export goroutines, Shutdown): in-flight <= "
+             "max_concurrency; Shutdown returns only with all loops returned and no export in flight; an internal step is always enabled (no deadlock, given "
+             "exports return). Partial: data races and goroutine leaks are runtime properties. Tied by checking that each run's event log is a trace of the LTS.",
+        design_ref="DESIGN.md 6/C11", note=_BP_NOTE + " Partial: race freedom / leaks not expressible.", technique="Coq proof (LTS invariants, progress) + trace acceptance"),
 }
 
 NOT_APPLICABLE = []
